@@ -3,6 +3,7 @@
 set -e
 cd "$(dirname "$0")"
 mkdir -p .build replays evidence
+python3 tools/extract.py
 (cd lean && lake build LiquidModel driver)
 (cd harness && CARGO_NET_OFFLINE=true CARGO_TARGET_DIR="$PWD/../.build/target" cargo build --release --offline)
 echo setup-ok
